@@ -44,6 +44,11 @@ func (h *invocationErrorHandler) ServeHTTP(writer http.ResponseWriter, request *
 	}
 
 	runtime := h.registrationService.GetRuntime()
+	if runtime == nil {
+		// the environment was reset while this request was in flight: its invocation is gone
+		rendering.RenderInvalidRequestID(writer, request)
+		return
+	}
 	if err := runtime.InvocationErrorResponse(); err != nil {
 		log.Warn(err)
 		rendering.RenderForbiddenWithTypeMsg(writer, request, rendering.ErrorTypeInvalidStateTransition, StateTransitionFailedForRuntimeMessageFormat,
